@@ -219,3 +219,61 @@ def mod(name):
 
 def env():
     return ENV
+
+
+# ---- floating point helpers (spec side) ---------------------------------------------------------
+import struct as _struct
+
+
+def f64_bits(x):
+    if isinstance(x, symfloat.SymFloat):
+        return x.bits()
+    return _struct.unpack("<Q", _struct.pack("<d", float(x)))[0]
+
+
+def f32_bits(x):
+    """IEEE binary32 image of x rounded to nearest-even (x assumed not to overflow)."""
+    if isinstance(x, symfloat.SymFloat):
+        f32 = z3.fpToFP(symfloat.RNE, x.t, symfloat.F32)
+        return SymInt(z3.ZeroExt(core.W - 32, z3.fpToIEEEBV(f32)), 0, (1 << 32) - 1)
+    return _struct.unpack("<L", _struct.pack("<f", float(x)))[0]
+
+
+def f32_exact(x):
+    """x is exactly representable as binary32."""
+    if isinstance(x, symfloat.SymFloat):
+        back = z3.fpToFP(symfloat.RNE, z3.fpToFP(symfloat.RNE, x.t, symfloat.F32), symfloat.F64)
+        return SymBool(z3.Or(z3.fpEQ(back, x.t), z3.fpIsNaN(x.t)))
+    try:
+        y = _struct.unpack("<f", _struct.pack("<f", float(x)))[0]
+    except OverflowError:
+        return False
+    return y == x or x != x
+
+
+def f32_overflows(x):
+    """finite double whose binary32 rounding is infinite (struct 'f' raises OverflowError)."""
+    if isinstance(x, symfloat.SymFloat):
+        f32 = z3.fpToFP(symfloat.RNE, x.t, symfloat.F32)
+        return SymBool(z3.And(z3.fpIsInf(f32), z3.Not(z3.fpIsInf(x.t))))
+    try:
+        _struct.pack("<f", float(x))
+    except OverflowError:
+        return True
+    return False
+
+
+def fisnan(x):
+    if isinstance(x, symfloat.SymFloat):
+        return x.isnan()
+    return x != x
+
+
+def fisinf(x):
+    if isinstance(x, symfloat.SymFloat):
+        return x.isinf()
+    return x in (float("inf"), float("-inf"))
+
+
+def is_float(x):
+    return isinstance(x, (float, symfloat.SymFloat))
